@@ -1615,6 +1615,47 @@ func runClosure(c *core.Ctx) []core.Obligation {
 				}
 			}
 		}
+		// (e) an object the constructor made and the closure reaches through a captured pointer is
+		// shared by every call as well: a store into one of its fields or elements (an error value
+		// built once and completed per call) is seen by the callers that already hold the object
+		if !perCall {
+			for _, blk := range fn.Blocks {
+				for _, in := range blk.Instrs {
+					st, ok := in.(*ssa.Store)
+					if !ok {
+						continue
+					}
+					addr := st.Addr
+					through := false
+					for i := 0; i < 6; i++ {
+						switch x := addr.(type) {
+						case *ssa.FieldAddr:
+							addr, through = x.X, true
+							continue
+						case *ssa.IndexAddr:
+							addr, through = x.X, true
+							continue
+						}
+						break
+					}
+					if !through {
+						continue
+					}
+					ld, ok := addr.(*ssa.UnOp)
+					if !ok || ld.Op != token.MUL {
+						continue
+					}
+					fv, ok := ld.X.(*ssa.FreeVar)
+					if !ok {
+						continue
+					}
+					if _, isPtr := derefType(fv.Type()).Underlying().(*types.Pointer); !isPtr {
+						continue
+					}
+					bads = append(bads, fmt.Sprintf("store into the object that the captured pointer %q refers to at %s (made once by the constructor, shared by every call and by whoever was handed it before)", fv.Name(), c.InstrPos(st)))
+				}
+			}
+		}
 		// state shared by every call of a codec is also shared by the nested calls of one Marshal or
 		// Unmarshal: a type that reaches itself re-enters the closure while the outer call still
 		// holds the value, so the round trip breaks without any concurrency
